@@ -1,0 +1,95 @@
+//go:build verif
+
+package proxy
+
+import (
+	"context"
+	"net"
+	"time"
+
+	"go.minekube.com/gate/pkg/edition/java/netmc"
+	"go.minekube.com/gate/pkg/edition/java/profile"
+	"go.minekube.com/gate/pkg/edition/java/proto/packet"
+	"go.minekube.com/gate/pkg/edition/java/proto/state"
+	"go.minekube.com/gate/pkg/edition/java/proxy/phase"
+	"go.minekube.com/gate/pkg/gate/proto"
+	"go.minekube.com/gate/pkg/util/permission"
+)
+
+// Exports for the external verification harness of the play-state chat / command
+// handling (C21, C22) and the command tree merge (C23). Thin constructor and
+// wrappers only: no logic lives here.
+
+// VerifPlay is a connectedPlayer in the play state: a real netmc.MinecraftConn over
+// the given client net.Conn, the real clientPlaySessionHandler (with its chatHandler
+// on the proxy's event and command managers) and the real backendPlaySessionHandler
+// of a serverConnection whose backend connection is supplied by the harness.
+type VerifPlay struct {
+	conn    netmc.MinecraftConn
+	player  *connectedPlayer
+	client  *clientPlaySessionHandler
+	backend netmc.SessionHandler
+}
+
+// VerifNewPlay wires the player as the login / server-connect code leaves it once the
+// player has joined server through backend. Nothing reads from raw.
+func VerifNewPlay(p *Proxy, raw net.Conn, prof *profile.GameProfile, protocol proto.Protocol,
+	perm permission.Func, server RegisteredServer, backend netmc.MinecraftConn) (*VerifPlay, error) {
+	conn, _ := netmc.NewMinecraftConn(context.Background(), raw, proto.ServerBound,
+		30*time.Second, 30*time.Second, -1, nil)
+	conn.SetProtocol(protocol)
+	conn.SetType(phase.Vanilla)
+	conn.SetState(state.Play)
+	player := newConnectedPlayer(conn, prof, raw.LocalAddr(), packet.LoginHandshakeIntent, false, nil,
+		&sessionHandlerDeps{
+			proxy:          p,
+			registrar:      p,
+			configProvider: p,
+			eventMgr:       p.event,
+			authenticator:  p.authenticator,
+			loginsQuota:    p.loginsQuota,
+		})
+	if perm != nil {
+		player.permFunc = perm
+	}
+	sc := newServerConnection(server.(*registeredServer), nil, player)
+	sc.connection = backend
+	player.connectedServer_ = sc
+	client := newClientPlaySessionHandler(player)
+	conn.SetActiveSessionHandler(state.Play, client)
+	bh, err := newBackendPlaySessionHandler(sc)
+	if err != nil {
+		return nil, err
+	}
+	return &VerifPlay{conn: conn, player: player, client: client, backend: bh}, nil
+}
+
+// Player is the connected player.
+func (v *VerifPlay) Player() Player { return v.player }
+
+// FromClient is clientPlaySessionHandler.HandlePacket for a decoded client packet
+// (what the client read loop calls).
+func (v *VerifPlay) FromClient(p proto.Packet) {
+	v.client.HandlePacket(&proto.PacketContext{Direction: proto.ServerBound, Protocol: v.conn.Protocol(), Packet: p})
+}
+
+// FromBackend is backendPlaySessionHandler.HandlePacket for a decoded backend packet
+// (what the backend read loop calls).
+func (v *VerifPlay) FromBackend(p proto.Packet) {
+	v.backend.HandlePacket(&proto.PacketContext{Direction: proto.ClientBound, Protocol: v.conn.Protocol(), Packet: p})
+}
+
+// ChatIdle registers fn to run once every task queued on the player's chat queue so far has completed.
+func (v *VerifPlay) ChatIdle(fn func()) {
+	cq := v.player.chatQueue
+	cq.internalLock.Lock()
+	head := cq.head
+	cq.internalLock.Unlock()
+	head.ThenAccept(func(any) { fn() })
+}
+
+// Closed reports whether the client connection has been closed.
+func (v *VerifPlay) Closed() bool { return netmc.Closed(v.conn) }
+
+// Close closes the client connection (runs the play session handler's Disconnected).
+func (v *VerifPlay) Close() error { return v.conn.Close() }
